@@ -25,9 +25,7 @@ mut('m-c01-control-appended', 'C01', 'lomond/stream.py',
 mut('m-c01-len16-offbyone', 'C01', 'lomond/frame_parser.py', "            if payload_length == 126:\n                (payload_length,) = self.unpack16((yield self.read(2)))\n",
     "            if payload_length == 126:\n                (payload_length,) = self.unpack16((yield self.read(2)))\n                if payload_length == 0xffff:\n                    payload_length = 0xfffe\n",
     'length 65535 read as 65534 (boundary)')
-mut('m-c01-bytearray-alias', 'C01', 'lomond/parser.py', "                    self._awaiting = self._gen.send(_buffer[:])\n                    del _buffer[:]\n",
-    "                    self._awaiting = self._gen.send(_buffer)\n                    _buffer = self._buffer = bytearray()\n",
-    'payload handed out without a copy (mutable bytearray payloads)')
+# (m-c01-bytearray-alias removed: handing out a fresh bytearray per read is behaviour-preserving - Message.build copies)
 # ---- C02
 mut('m-c02-refeed-dropped', 'C02', 'lomond/parser.py', "                    data = _buffer[sep_index:]\n", "                    data = _buffer[sep_index:sep_index]\n",
     'bytes after the header terminator in the same read are dropped')
